@@ -90,7 +90,7 @@ def gen_config(rng, profile):
     keys = alloc_keys(rng, n, cfg, profile.get("prefixy", True))
     counts = {}
     force = profile.get("force")
-    forced_kinds = {"differ": ["i", "i"], "disjoint": ["vi", "vi"]}.get(force, [])
+    forced_kinds = {"differ": ["i", "i", "i"], "disjoint": ["vi", "vi"]}.get(force, [])
     for ki, (s, l) in enumerate(keys):
         kind = forced_kinds[ki] if ki < len(forced_kinds) else rng.choice(profile["kinds"])
         a = Arg(next_slot(counts, kind), s, l)
@@ -201,7 +201,13 @@ def add_rules(rng, cfg, profile):
     force = profile.get("force")
     if force and n >= 2:
         a, b = cfg.args[0], cfg.args[1]
-        if force in ("differ", "disjoint"):
+        if force == "differ":
+            mem = [x for x in cfg.args[:3] if kind_of(x.slot) == "i"]
+            if len(mem) == 3 and rng.random() < 0.4:
+                mem = mem[:2]
+            rng.shuffle(mem)
+            cfg.constraints.append((force, mem, 0))
+        elif force == "disjoint":
             a.sort = b.sort = a.unique = b.unique = False
             cfg.constraints.append((force, [a, b], 0))
         elif force in ("all_of", "any_of", "one_of"):
@@ -251,7 +257,7 @@ def add_rules(rng, cfg, profile):
             elif kind == "differ":
                 ints = [a for a in cfg.args if kind_of(a.slot) == "i"]
                 if len(ints) >= 2:
-                    cfg.constraints.append((kind, rng.sample(ints, 2), 0))
+                    cfg.constraints.append((kind, rng.sample(ints, min(len(ints), rng.choice([2, 2, 3, 4]))), 0))
             else:
                 vis = [a for a in cfg.args if kind_of(a.slot) == "vi" and not a.sort and not a.unique]
                 if len(vis) >= 2:
